@@ -9,6 +9,7 @@ observed (sanitizers, memcheck, repeated runs with perturbed allocator / address
 -/
 import Qsx.Proofs.CapSound
 import Qsx.Proofs.StoreAcctSound
+import Qsx.Proofs.SymtabPool
 
 namespace Qsx.Props.C17
 open Qsx Qsx.Cap
@@ -49,5 +50,16 @@ theorem addcoef_move_safe (c : Nat) (free : Int) (h : (c : Int) + 2 < free) :
 
 #guard StoreAcct.run 10 [.first, .inPlace true, .move 3] == some 4
 #guard StoreAcct.delta [.first, .inPlace true, .move 3] == 5
+
+/-! ### the string pool of the symbol table (`add_string` / `grow_namelist`, symtab.c) -/
+
+/-- for every pool state whose live strings fit below `strsize` (checked on every dumped state of
+the symbol-table sessions) `add_string` leaves its loop with room for the string and its
+terminator - the copy stays inside `strspace` - and keeps `strsize ≤ strspace` -/
+theorem symtab_pool_write_fits (t : Symtab.T) (s : Symtab.Name) (h : Symtab.PoolOK t) :
+    let t' := Symtab.addStringLoop (2 * (t.strsize + (s.length + 1)) + 64) t (s.length + 1)
+    t'.strsize + (s.length + 1) ≤ t'.strspace ∧ (Symtab.addString t s).strsize ≤ (Symtab.addString t s).strspace ∧
+    0 < (Symtab.addString t s).strspace :=
+  Symtab.addString_fits t s h
 
 end Qsx.Props.C17
